@@ -612,6 +612,9 @@ class Cfg:
     ascii_only: bool = True
     balanced_modes: bool = False
     sym_vars: bool = True            # parameters in scalar initialisers / arrays
+    sym_scalars: bool = True         # parameters in scalar initialisers
+    min_loops: int = 0
+    stmt_weight: int = 3
     array_args: bool = True
     max_mode: int = 12
 
@@ -639,7 +642,7 @@ def script(draw, cfg=Cfg()):
     n = draw(st.integers(1, cfg.max_items))
     symbolic = "params" if cfg.params else None
     for _ in range(n):
-        kinds = ["stmt", "stmt", "stmt", "scalar"]
+        kinds = ["stmt"] * cfg.stmt_weight + ["scalar"]
         if cfg.arrays:
             kinds.append("array")
         if cfg.loops:
@@ -652,11 +655,17 @@ def script(draw, cfg=Cfg()):
             items.append(draw(statement(ctx, symbolic=arg_sym, max_mode=cfg.max_mode, balanced=cfg.balanced_modes,
                                         allow_arrays=cfg.array_args)))
         elif k == "scalar":
-            items.append(draw(scalar_decl(ctx, symbolic=symbolic if cfg.sym_vars else None)))
+            items.append(draw(scalar_decl(ctx, symbolic=symbolic if (cfg.sym_vars and cfg.sym_scalars) else None)))
         elif k == "array":
             items.append(draw(array_decl(ctx, symbolic=symbolic if cfg.sym_vars else None)))
         else:
             items.append(draw(for_loop(ctx, symbolic=arg_sym, max_mode=cfg.max_mode)))
+    nloops = sum(isinstance(i, A.For) for i in items)
+    for _ in range(max(0, cfg.min_loops - nloops)):
+        arg_sym = "regs" if (cfg.regs and not cfg.params) else symbolic
+        items.insert(draw(st.integers(0, len(items))) if False else len(items), draw(for_loop(ctx, symbolic=arg_sym, max_mode=cfg.max_mode)))
+        if draw(st.booleans()):
+            items.append(draw(statement(ctx, symbolic=arg_sym, max_mode=cfg.max_mode)))
     sc = A.Script(name, version, target, ptype, [], items)
     if cfg.params and not _has_prim(sc, A.Param):
         ctx.loopvar = None
